@@ -11,3 +11,7 @@ package qos
 //@   trusted touches the QoS manager's own maps and kernel maps only
 //@   modifies nothing
 //@   sets relQoS = relQoS + 1
+
+//@ func (m *Manager) SetSubscriberPolicy
+//@   trusted touches the QoS manager's own maps and kernel maps only
+//@   modifies nothing
